@@ -255,16 +255,22 @@ def real_field(chk, F, ty):
     else:
         chk.count("RealField forwarding items")
         c01.check_atan2(chk, F, ty, trait_body=body, names=("a", "b"), tag="rf")
+    copysign_rule(chk, F, ty, imp)
+    c06.selections(chk, F, ty)
+
+
+def copysign_rule(chk, F, ty, imp, tag="rf"):
+    sp = Spec(ty)
     # copysign(self, sign): |self| with the sign of sign.re
     body = F.impl_item(imp, "copysign")
     if body is None:
-        chk.undecide("rf|%s|copysign" % ty, "missing anchor")
+        chk.undecide(tag + "|%s|copysign" % ty, "missing anchor")
     else:
         chk.count("RealField branch items")
         for s_self in (1, -1):
             for s_sign in (1, -1):
                 env = {("v", "a.re", ()): Fr(s_self), ("v", "b.re", ()): Fr(s_sign), ("c", "EPS"): EPS_VALUE}
-                k2 = "rf|%s|copysign|self=%+d,sign=%+d" % (ty, s_self, s_sign)
+                k2 = tag + "|%s|copysign|self=%+d,sign=%+d" % (ty, s_self, s_sign)
                 try:
                     paths = run_paths(F, body, lambda: [sp.operand("a"), sp.operand("b")], oracle=sample_oracle(env))
                 except Unsupported as ex:
@@ -277,7 +283,13 @@ def real_field(chk, F, ty):
                 base = A if s_self * s_sign > 0 else -A
                 compare_parts(chk, k2, "copysign returns +-self: the magnitude of self with the sign of sign.re", body_loc(F, body), sp,
                               paths[0][1], sp.spec_of_real(base))
-    c06.selections(chk, F, ty)
+                # reference semantics (f64::copysign): the SIGN BIT of sign.re decides, so that -0.0 counts as negative; an ordering
+                # comparison with zero is not the same predicate
+                bk = B.key()
+                bad_dec = [d for (k, d, b_, f_) in paths[0][0].trace
+                           if bk in k and not (k[0] == "pred" and k[1] in ("is_sign_positive", "is_sign_negative"))]
+                chk.ob(k2 + "|sign-bit", not bad_dec, "the sign is taken from the sign bit of sign.re (is_sign_positive / is_sign_negative)",
+                       body_loc(F, body), found=bad_dec or "sign-bit predicate", required="is_sign_positive(sign.re)", nontrivial=False)
 
 
 # ------------------------------------------------------------------------------------------ SIMD lane view
